@@ -139,6 +139,20 @@ def leg_client(ws, cuts, rnd, gz, big=None):
     data = gzip.compress(body) if gz else body
     t = jsonrpc.Transport(cfg)
     err, got = "", None
+    if rnd.random() < 0.3:
+        # the same transport first received a response that broke after part of it had been parsed (> one read of 1024
+        # bytes): nothing of it may show up in the next one
+        class Broken(FakeResponse):
+            def read(self, n=-1):
+                d = self.stream.read(n)
+                if not d:
+                    raise OSError("connection reset in the middle of the body")
+                return d
+        junk = ('{"jsonrpc": "2.0", "id": 1, "result": "' + "x" * 3000).encode("utf-8")
+        try:
+            t.parse_response(Broken(gzip.compress(junk)[:-8] if gz else junk, [], "gzip" if gz else ""))
+        except BaseException:  # noqa
+            pass
     resp = FakeResponse(data, [] if gz else cuts, "gzip" if gz else "")
     try:
         got = t.parse_response(resp)
@@ -292,15 +306,17 @@ def leg_target(rnd, peer):
                     rec["built"] = True
                     ct = CaptureTransport()
                     p = jsonrpc.ServerProxy(url, transport=ct)
-                    p._notify.ping()
-                    rec["target"] = ct.seen[0][1] if ct.seen else "?"
+                    for _rep in range(rnd.randint(1, 3)):           # the target of the n-th request is that of the first
+                        p._notify.ping()
+                    rec["target"] = ct.seen[-1][1] if ct.seen else "?"
                     # without a custom transport: which transport class is chosen, and (plain http) what a raw peer receives
                     if scheme == "http":
                         n0 = len(peer.requests)
                         p2 = jsonrpc.ServerProxy(url)
-                        p2._notify.ping()
+                        for _rep in range(rnd.randint(1, 3)):
+                            p2._notify.ping()
                         reqs = peer.requests[n0:]
-                        rec["wire"] = reqs[0]["line"].split(" ")[1] if reqs else "?"
+                        rec["wire"] = reqs[-1]["line"].split(" ")[1] if reqs else "?"
                         p2("close")()
                 except BaseException as e:  # noqa
                     rec["exc"] = type(e).__name__
